@@ -38,7 +38,7 @@ FAMILIES = ['planes', 'sphere', 'cylinder', 'mixed', 'dup-lower-unflagged',
             'dup-higher-unflagged', 'dup-both-flagged', 'with-tr', 'unused',
             'only-imp0', 'macrobody', 'none', 'in-union', 'via-complement',
             'in-union-branch', 'one-sheet-cone', 'one-sheet-cone-twin',
-            'unused-flagged-twin', 'trcl-two-mentions']
+            'unused-flagged-twin', 'trcl-two-mentions', 'trcl-lands-on-twin']
 _PER = {'quick': 12, 'thorough': 3500}
 KIND = {'*': 'REFLECTION', '+': 'COSINUS'}
 
@@ -191,6 +191,39 @@ def build(case):
         # moved cell and the outside
         deck.cells = [cells[0], M.Cell(9, mat=0, geom=M.CELLC(1),
                                        imp={'n': '0'})]
+    if fam == 'trcl-lands-on-twin':
+        # a box and its copy moved by exactly its own width: the moved copy
+        # of a flagged face has the locus of the opposite, unflagged face of
+        # the original (and the other way round).  A card keeps its own
+        # condition, whatever happens to lie on the same points.
+        from ..gen_surf import tr_spec
+        ax = rng.randrange(3)
+        width = rng.choice([3.0, 4.0, 5.0, 6.0])
+        lo = rng.choice([-2.0, 0.0, 1.0, -width])
+        planes[2 * ax].params = [lo]
+        planes[2 * ax + 1].params = [lo + width]
+        which = rng.choice(['low', 'high', 'both-kinds'])
+        if which in ('low', 'both-kinds'):
+            flag(planes[2 * ax], '*' if which == 'both-kinds' else None)
+        if which in ('high', 'both-kinds'):
+            flag(planes[2 * ax + 1], '+' if which == 'both-kinds' else None)
+        if rng.random() < 0.3:
+            flag(rng.choice([p for k, p in enumerate(planes)
+                             if k // 2 != ax]))
+        shift = [0.0, 0.0, 0.0]
+        shift[ax] = width * rng.choice([1, -1])
+        first = M.Cell(1, mat=1, rho='-1.5', geom=box, imp={'n': '1'})
+        second = first.copy()
+        second.id = 2
+        second.mat, second.rho = 2, '-2.5'
+        second.trcl = tr_spec(rng, Motion(shift), 'inline3')
+        if rng.random() < 0.5:
+            second.like = 1
+            second.but = ['trcl', 'mat', 'rho']
+        deck.cells = [first, second,
+                      M.Cell(9, mat=0, geom=M.AND(M.CELLC(1), M.CELLC(2)),
+                             imp={'n': '0'})]
+        deck.surfs = list(planes)
     if fam == 'one-sheet-cone-twin':
         # the two sheets of one double cone as two cards, one of them
         # flagged: the other sheet must not inherit the condition
@@ -264,7 +297,8 @@ def build(case):
             extra = M.AND(shell, M.CELLC(2))
         deck.cells.insert(2, M.Cell(4, mat=2, rho='-2.7', geom=extra,
                                     imp={'n': '1'}))
-    if rng.random() < 0.4 and fam != 'trcl-two-mentions':
+    if rng.random() < 0.4 and fam not in ('trcl-two-mentions',
+                                          'trcl-lands-on-twin'):
         # (without de-duplication every transformed mention of a surface
         # stays a SURF of its own, with an entry of its own)
         deck.cli.append('--skip-deduplication')
@@ -436,6 +470,37 @@ def run(case, ctx):
     return out
 
 
+def cell_flagged(deck, cel, depth=0):
+    '''(flagged surface, motion) for every flagged surface the cell mentions:
+    directly (moved by the cell's TRCL), as 1000*c+s (moved by the TRCL of
+    cell c), or through the complement #n of another cell.'''
+    found = []
+    surfs = {s.id: s for s in deck.surfs}
+    mot = deck.motion_of(cel.trcl)
+
+    def walk(expr):
+        if expr[0] == 's':
+            sid = expr[1]
+            if sid in surfs:
+                if surfs[sid].flag:
+                    found.append((surfs[sid], mot))
+            elif sid >= 1000 and sid % 1000 in surfs and \
+                    surfs[sid % 1000].flag:
+                found.append((surfs[sid % 1000],
+                              deck.motion_of(deck.cell(sid // 1000).trcl)))
+        elif expr[0] == '^':
+            if depth < 5:
+                found.extend(cell_flagged(deck, deck.cell(expr[1]),
+                                          depth + 1))
+        elif expr[0] in ('#', 'g'):
+            walk(expr[1])
+        else:
+            for sub in expr[1:]:
+                walk(sub)
+    walk(cel.geom)
+    return found
+
+
 def leak_check(case, out, deck, reference, t4, flagged, instances=()):
     '''Wherever a surface that carries a boundary condition actually bounds a
     written non-virtual volume, a flagged MCNP surface of that kind must pass
@@ -499,6 +564,38 @@ def leak_check(case, out, deck, reference, t4, flagged, instances=()):
             mns = minus if mot is None else mot.to_aux(minus)
             covered |= np.sign(reference.leaf_sense(leaf, pls)) != \
                 np.sign(reference.leaf_sense(leaf, mns))
+        # the same question cell by cell: a condition belongs to a surface
+        # card, not to a locus - where the entry's surface bounds the volume
+        # of a cell, a flagged surface of that kind that THIS cell mentions
+        # (moved as the cell is) must pass there.  An unflagged card with
+        # the locus of a flagged one must not inherit its condition.
+        for vid in live:
+            vol = t4.volus[vid]
+            if vol.chain or not any(c.id == vid for c in deck.cells):
+                continue
+            act = bplus.inside(vid) != bminus.inside(vid)
+            if not act.any():
+                continue
+            cov = np.zeros(len(root), dtype=bool)
+            for sur, mot in cell_flagged(deck, deck.cell(vid)):
+                if KIND[sur.flag] != kind or (sur.is_macro and
+                                              sur.kind not in ('sph', 'ell')):
+                    continue
+                leaf = ('s', sur.id, 1, None)
+                pls = plus if mot is None else mot.to_aux(plus)
+                mns = minus if mot is None else mot.to_aux(minus)
+                cov |= np.sign(reference.leaf_sense(leaf, pls)) != \
+                    np.sign(reference.leaf_sense(leaf, mns))
+            out.counters['bc_cell_boundary_points'] += int(act.sum())
+            badc = act & ~cov
+            if badc.sum() >= 3:
+                out.violation('bc-leak-cell', f'entry {kind} {tok} '
+                              f'({t4surf.raw}) bounds the volume of cell '
+                              f'{vid} at {int(badc.sum())} of '
+                              f'{int(act.sum())} sampled points, but the '
+                              'cell mentions no flagged surface of that kind '
+                              'passing there, e.g. '
+                              f'{[round(float(v), 4) for v in root[badc][0]]}')
         out.counters['bc_boundary_points'] += int(active.sum())
         out.judged += int(active.sum())
         bad = active & ~covered
